@@ -432,11 +432,13 @@ type Contract struct {
 	Line     int
 	Induct   string
 	Caller   string // callsite contracts: the calling function
+	Reveals  []string // opaque spec functions whose definition is available in this unit
+	As       string   // implements: the interface method whose contract the function must satisfy
 	Notes    []string
 }
 
-var headRe = regexp.MustCompile(`^(func|trusted func|loop|pred|fun|lemma|axiom|ghost var|ghost field|chan|guarded|sort|assume-call|callsite)\s+(.*)$`)
-var clauseRe = regexp.MustCompile(`^(requires|ensures|invariant|modifies|records|nopanic|pure|opaque|induction|note)\b\s*(.*)$`)
+var headRe = regexp.MustCompile(`^(func|trusted func|loop|pred|fun|lemma|axiom|ghost var|ghost field|chan|guarded|sort|assume-call|callsite|implements)\s+(.*)$`)
+var clauseRe = regexp.MustCompile(`^(requires|ensures|invariant|modifies|records|reveals|nopanic|pure|opaque|induction|note)\b\s*(.*)$`)
 
 // splitParams splits "a int, b []T" at top-level commas into name/type pairs.
 func splitParams(s string) []Param {
@@ -654,6 +656,14 @@ func ParseContractFile(path, pkgPath string) ([]*Contract, error) {
 				}
 			case "chan", "guarded":
 				cur.Name = rest
+			case "implements":
+				// implements FUNC as IFACEMETHOD
+				i := strings.Index(rest, " as ")
+				if i < 0 {
+					return nil, fmt.Errorf("%s:%d: implements needs FUNC as (Iface).Method", path, ln+1)
+				}
+				cur.Name = strings.TrimSpace(rest[:i])
+				cur.As = strings.TrimSpace(rest[i+4:])
 			case "callsite":
 				// callsite CALLER -> CALLEE(params)
 				i := strings.Index(rest, "->")
@@ -699,10 +709,16 @@ func ParseContractFile(path, pkgPath string) ([]*Contract, error) {
 				cur.Records = append(cur.Records, curClause)
 			case "modifies":
 				cur.HasMod = true
-				for _, x := range strings.Split(m[2], ",") {
+				for _, x := range splitTop(m[2]) {
 					x = strings.TrimSpace(x)
 					if x != "" && x != "nothing" {
 						cur.Modifies = append(cur.Modifies, x)
+					}
+				}
+			case "reveals":
+				for _, x := range strings.Split(m[2], ",") {
+					if x = strings.TrimSpace(x); x != "" {
+						cur.Reveals = append(cur.Reveals, x)
 					}
 				}
 			case "nopanic":
@@ -734,4 +750,24 @@ func ParseContractFile(path, pkgPath string) ([]*Contract, error) {
 		return nil, err
 	}
 	return out, nil
+}
+
+// splitTop splits at commas that are not nested in parentheses or brackets.
+func splitTop(s string) []string {
+	var parts []string
+	depth, start := 0, 0
+	for i, c := range s {
+		switch c {
+		case '(', '[', '{':
+			depth++
+		case ')', ']', '}':
+			depth--
+		case ',':
+			if depth == 0 {
+				parts = append(parts, s[start:i])
+				start = i + 1
+			}
+		}
+	}
+	return append(parts, s[start:])
 }
